@@ -103,6 +103,18 @@ def flat_out(o):
     return res
 
 
+def live_flat(o):
+    """like flat_out but without cloning: looks at the very objects the module returned"""
+    if isinstance(o, torch.Tensor):
+        return [o.detach()]
+    if o is None:
+        return [None]
+    res = []
+    for t in o:
+        res += live_flat(t)
+    return res
+
+
 def make_input(rng, kind, shape_id, dtype):
     shapes = {'img': [(1, 2, 16, 16), (2, 1, 12, 20), (1, 1, 9, 7), (1, 3, 8, 8)], 'img8': [(1, 1, 8, 8), (1, 2, 16, 8)], 'sig': [(1, 2, 16), (2, 1, 21), (1, 1, 9)]}[kind]
     sh = shapes[shape_id % len(shapes)]
@@ -135,6 +147,7 @@ def oracle_history(ck, n_ops, n_threads):
     for (ci, si, dt, _) in history:
         ref(ci, si, dt)
     failures = []
+    retained = []           # (description, live output objects, reference): re-checked after the whole history
     lock = threading.Lock()
 
     def work(items, barrier):
@@ -169,6 +182,12 @@ def oracle_history(ck, n_ops, n_threads):
             if not ok:
                 with lock:
                     failures.append(('%s on %s %s: result differs from the isolated reference call (history/thread dependence)' % (name, tuple(x.shape), dt), (ci, si, str(dt))))
+            else:
+                with lock:
+                    if len(retained) < 40:
+                        live = mod(x) if not grad else None      # keep the module's own returned objects alive
+                        if live is not None:
+                            retained.append(('%s on %s %s' % (name, tuple(x.shape), dt), live, want))
     if n_threads <= 1:
         work(history, None)
     else:
@@ -177,6 +196,11 @@ def oracle_history(ck, n_ops, n_threads):
         ths = [threading.Thread(target=work, args=(c, barrier)) for c in chunks]
         for t in ths: t.start()
         for t in ths: t.join()
+    for desc, live, want in retained:
+        now = live_flat(live)
+        ok = len(now) == len(want) and all((a is None and b is None) or (a is not None and b is not None and a.shape == b.shape and torch.equal(a, b)) for a, b in zip(now, want))
+        if not ok:
+            failures.append((desc + ': a result returned earlier was changed by later calls', None))
     for desc, key in failures[:5]:
         ck.fail(desc + ' [threads=%d]' % n_threads, {'oracle': 'history', 'threads': n_threads, 'n_ops': n_ops, 'note': 're-run the check with the same VERIF_SEED'})
     if not failures:
@@ -223,11 +247,11 @@ def run(ck):
     ck.corr.append(st)
     try:
         for nt in ([1, 4] if q else [1, 2, 4, 8]):
-            oracle_history(ck, 60 if q else 600, nt)
-        oracle_pyramid_inputs(ck)
+            rt.guard(ck, oracle_history, ck, 60 if q else 600, nt)
+        rt.guard(ck, oracle_pyramid_inputs, ck)
         if ((ck.lean is not None and not ck.lean.ok) or st.mismatches) and not ck.failures:
             for nt in (1, 2, 8):
-                oracle_history(ck, 200, nt)
+                rt.guard(ck, oracle_history, ck, 200, nt)
     finally:
         torch.set_default_dtype(torch.float64)
 
